@@ -503,6 +503,15 @@ class ConstEval:
     def definite_raise(self, cls, text):
         raise BuiltinRaised(cls, text)
 
+    def _default_value(self, node, mod):
+        """a parameter default is evaluated once, when the function is defined: every call that omits the argument gets the same object
+        (a mutable default that the function modifies carries state from call to call)"""
+        memo = self.__dict__.setdefault("_defaults", {})
+        k = id(node)
+        if k not in memo or memo[k][0] is not node:
+            memo[k] = (node, self.eval(node, {}, mod))
+        return memo[k][1]
+
     def eval(self, e, env, mod):
         self.tick()
         if isinstance(e, ast.Constant):
@@ -807,6 +816,11 @@ class ConstEval:
             # functools.lru_cache / cache: a call with arguments seen before is answered from the cache -- the body (and its effects) is skipped
             tbl = self.__dict__.setdefault("_memo_tbl", [])
             key = list(args) + sorted((kw or {}).items())
+            for k_ in key:
+                v_ = k_[1] if isinstance(k_, tuple) and len(k_) == 2 and isinstance(k_[0], str) and k_ in (kw or {}).items() else k_
+                if isinstance(v_, (list, dict, set, bytearray)) or type(v_).__name__ == "ABytes":
+                    # the cache key is built from the arguments: a mutable sequence (bytearray, list) is not hashable
+                    self.definite_raise("TypeError", f"unhashable type: '{type(v_).__name__}' (argument of a memoised function)")
             for n_, k_, v_ in tbl:
                 if n_ is node and len(k_) == len(key) and all(_same_arg(x, y) for x, y in zip(k_, key)):
                     return v_
@@ -829,12 +843,12 @@ class ConstEval:
                 di = i - (len(params) - len(defaults))
                 if di < 0:
                     raise NotConstant("missing argument")
-                loc[p] = self.eval(defaults[di], {}, f.mod)
+                loc[p] = self._default_value(defaults[di], f.mod)
         for ka, kd in zip(a.kwonlyargs, a.kw_defaults):
             if kw and ka.arg in kw:
                 loc[ka.arg] = kw[ka.arg]
             elif kd is not None:
-                loc[ka.arg] = self.eval(kd, {}, f.mod)
+                loc[ka.arg] = self._default_value(kd, f.mod)
             else:
                 raise NotConstant(f"missing keyword-only argument {ka.arg}")
         loc["__locals__"] = _function_locals(node) - set(loc)
